@@ -124,6 +124,9 @@ def prefix_menu(tier):
 
 
 TRAILER = [SFrame(TEXT, b'after'), SFrame(PING, b'after')]
+KINDS = frozenset(['not-rejected', 'protocol-error-repeated', 'prefix-lost', 'leak-after-violation', 'graceful-after-violation',
+                   'writes-after-violation', 'second-close', 'terminal', 'exception-escaped', 'no-termination', 'yield-after-stop',
+                   'events-before-dontcare'])
 EXT = scen.DEFLATE_HDR
 
 
@@ -209,6 +212,8 @@ class C04(F.Check):
             for a, b in zip(hashes, hashes[1:]):
                 res.transitions.add(F.hs((a, b)))
         for kind, msg in problems:
+            if kind not in KINDS:
+                continue           # belongs to another property (pongs: C14, delivery of valid streams: C01, socket release: C09)
             why = stop[1] if stop else 'valid-stream'
             res.violate('C04:%s:%s' % (kind, why), msg, case)
 
@@ -267,7 +272,7 @@ class C04(F.Check):
             cf, g = ref_ws.decode_client_stream(ref_ws.split_http_request(run.world.wire())[1])
             print('client frames:', cf, g or '')
         why = stop[1] if stop else 'valid-stream'
-        return [F.Violation('C04:%s:%s' % (kind, why), msg, case) for kind, msg in problems]
+        return [F.Violation('C04:%s:%s' % (kind, why), msg, case) for kind, msg in problems if kind in KINDS]
 
 
 def judge_client_closing(run, frames, inflate, neg):
